@@ -67,6 +67,9 @@ func compareBackends(c *run.Ctx, o *ProgObs) {
 			}
 			continue
 		}
+		if b.Skipped == "bytecode failed verification" {
+			continue
+		}
 		if b.Skipped != "" {
 			c.Violation("callthread-exec-limit", "vm-callthread: over exec limit, "+b.Skipped+" :: "+short(o.Case.Src), o.witness())
 			continue
